@@ -19,6 +19,9 @@ pub struct Chopper {
     pub blackhole: Arc<AtomicBool>,
     /// maximum bytes forwarded per write (re-segmentation); 0 = unlimited
     pub segment: Arc<AtomicU64>,
+    /// the first this-many bytes of each direction of a link are never split (Shadowsocks 2022 requires salt and
+    /// fixed-length header to arrive in one read; that boundary is exempt from the segmentation properties)
+    pub whole_prefix: Arc<AtomicU64>,
     pub links: Arc<AtomicU64>,
     /// everything each link carried towards the upstream side, by link number in order of acceptance (the attacker's tape)
     pub recorded: Arc<Mutex<BTreeMap<u64, Vec<u8>>>>,
@@ -38,9 +41,11 @@ pub async fn start(upstream: u16) -> std::io::Result<Chopper> {
     let reset = Arc::new(AtomicBool::new(false));
     let blackhole = Arc::new(AtomicBool::new(false));
     let segment = Arc::new(AtomicU64::new(0));
+    let whole_prefix = Arc::new(AtomicU64::new(0));
     let links = Arc::new(AtomicU64::new(0));
     let recorded: Arc<Mutex<BTreeMap<u64, Vec<u8>>>> = Arc::new(Mutex::new(BTreeMap::new()));
     let (c, r, b, sg, lk, rec) = (cut.clone(), reset.clone(), blackhole.clone(), segment.clone(), links.clone(), recorded.clone());
+    let wp = whole_prefix.clone();
     let task = tokio::spawn(async move {
         let mut serial = 0u64;
         loop {
@@ -48,6 +53,7 @@ pub async fn start(upstream: u16) -> std::io::Result<Chopper> {
             serial += 1;
             let link_no = serial;
             let (c, r, b, sg, lk, rec) = (c.clone(), r.clone(), b.clone(), sg.clone(), lk.clone(), rec.clone());
+            let wp = wp.clone();
             tokio::spawn(async move {
                 let Ok(s) = TcpStream::connect(("127.0.0.1", upstream)).await else { return };
                 let _ = a.set_nodelay(true);
@@ -55,8 +61,10 @@ pub async fn start(upstream: u16) -> std::io::Result<Chopper> {
                 lk.fetch_add(1, Ordering::SeqCst);
                 let (ar, aw) = a.into_split();
                 let (sr, sw) = s.into_split();
-                let pump = |mut from: tokio::net::tcp::OwnedReadHalf, mut to: tokio::net::tcp::OwnedWriteHalf, c: Arc<AtomicBool>, b: Arc<AtomicBool>, sg: Arc<AtomicU64>, tape: Option<Arc<Mutex<BTreeMap<u64, Vec<u8>>>>>| async move {
+                let keep = wp.load(Ordering::SeqCst) as usize;
+                let pump = move |mut from: tokio::net::tcp::OwnedReadHalf, mut to: tokio::net::tcp::OwnedWriteHalf, c: Arc<AtomicBool>, b: Arc<AtomicBool>, sg: Arc<AtomicU64>, tape: Option<Arc<Mutex<BTreeMap<u64, Vec<u8>>>>>| async move {
                     let mut buf = vec![0u8; 65536];
+                    let mut passed = 0usize;
                     loop {
                         if c.load(Ordering::SeqCst) {
                             break;
@@ -81,7 +89,11 @@ pub async fn start(upstream: u16) -> std::io::Result<Chopper> {
                                 let seg = sg.load(Ordering::SeqCst) as usize;
                                 let mut off = 0;
                                 while off < n {
-                                    let k = if seg == 0 { n - off } else { seg.min(n - off) };
+                                    let mut k = if seg == 0 { n - off } else { seg.min(n - off) };
+                                    if passed < keep {
+                                        k = k.max((keep - passed).min(n - off));
+                                    }
+                                    passed += k;
                                     if to.write_all(&buf[off..off + k]).await.is_err() {
                                         return (from, to);
                                     }
@@ -108,5 +120,5 @@ pub async fn start(upstream: u16) -> std::io::Result<Chopper> {
             });
         }
     });
-    Ok(Chopper { port, cut, reset, blackhole, segment, links, recorded, task })
+    Ok(Chopper { port, cut, reset, blackhole, segment, whole_prefix, links, recorded, task })
 }
